@@ -897,36 +897,11 @@ says that the hand-written model decides at that site by exactly the operator th
 source change that turns `<` into `<=`, `>` into `>=`, … at a site changes the generated constant and this
 proof obligation stops checking, whether or not a generated case lands on the tie. -/
 
-theorem src_restriction_weight {α : Type} [Field α] [LinearOrder α] [IsStrictOrderedRing α] [Lit α] [LawfulLit α] (limit : α) (unit : WeightUnit) (p : VehicleParams α) :
-    some ((Restriction.weight false limit unit).valid p) =
-      restriction_weight.num (p.totalWeight.2.convert unit p.totalWeight.1) limit := by
-  simp [Restriction.valid, restriction_weight, Rel.num]
 
-theorem src_restriction_weight_per_axle {α : Type} [Field α] [LinearOrder α] [IsStrictOrderedRing α] [Lit α] [LawfulLit α] (limit : α) (unit : WeightUnit) (p : VehicleParams α)
-    (h : p.axles ≠ 0) :
-    some ((Restriction.weight true limit unit).valid p) =
-      restriction_weight_per_axle.num (p.totalWeight.2.convert unit p.totalWeight.1 / p.axles) limit := by
-  simp [Restriction.valid, perAxleOk, restriction_weight_per_axle, Rel.num, h, zero_eq]
 
-theorem src_restriction_total_length {α : Type} [Field α] [LinearOrder α] [IsStrictOrderedRing α] [Lit α] [LawfulLit α] (limit : α) (unit : DistanceUnit) (p : VehicleParams α) :
-    some ((Restriction.length 2 limit unit).valid p) =
-      restriction_length.num (p.totalLength.2.convert unit p.totalLength.1) limit := by
-  simp [Restriction.valid, restriction_length, Rel.num]
 
-theorem src_restriction_width {α : Type} [Field α] [LinearOrder α] [IsStrictOrderedRing α] [Lit α] [LawfulLit α] (limit : α) (unit : DistanceUnit) (p : VehicleParams α) :
-    some ((Restriction.length 3 limit unit).valid p) =
-      restriction_width.num (p.width.2.convert unit p.width.1) limit := by
-  simp [Restriction.valid, restriction_width, Rel.num]
 
-theorem src_restriction_height {α : Type} [Field α] [LinearOrder α] [IsStrictOrderedRing α] [Lit α] [LawfulLit α] (limit : α) (unit : DistanceUnit) (p : VehicleParams α) :
-    some ((Restriction.length 4 limit unit).valid p) =
-      restriction_height.num (p.height.2.convert unit p.height.1) limit := by
-  simp [Restriction.valid, restriction_height, Rel.num]
 
-theorem src_restriction_trailer_length {α : Type} [Field α] [LinearOrder α] [IsStrictOrderedRing α] [Lit α] [LawfulLit α] (limit : α) (unit : DistanceUnit) (p : VehicleParams α) :
-    some ((Restriction.length 5 limit unit).valid p) =
-      restriction_trailer_length.num (p.trailerLength.2.convert unit p.trailerLength.1) limit := by
-  simp [Restriction.valid, restriction_trailer_length, Rel.num]
 
 /-- shared by every search property: the label test of `run_a_star`'s relaxation (`improves`) is the
 source's `tentative_gscore < existing_gscore`; with `<=` an equal-cost arrival re-labels an expanded vertex -/
